@@ -4,7 +4,7 @@ spec -> impl : MC_Schema (TLC) enumerates every text <= N over alphabets of sche
                the theorems relating YCoreSchema (reference), the model of Rust's std parsers and YSchema
                (the code's decision lists), and prints one REPLAY line per text holding the outcomes the
                property allows and the outcome the model predicts; `vh c08-replay` calls the real entry
-               points (5 styles x 9 tags x borrowed/owned/node/loader/load_from_str) and compares.
+               points (5 styles x 10 tags x borrowed/owned/node/loader/load_from_str) and compares.
 impl -> spec : `vh c08-record` runs boundary texts (2^63 neighbourhood in three radices, long digit
                strings, letter-case variants, random longer texts) and Trace_Schema (TLC) judges what
                came back with the YCoreSchema predicates."""
@@ -17,7 +17,7 @@ INFO = (
     "the set of outcomes the property allows; YSchema transcribes Scalar::parse_from_cow / parse_from_cow_and_metadata / parse_f64 over models of Rust's "
     "i64/f64/bool parsers. MC_Schema (TLC) enumerates every text <= 4 (quick: three 14..17-symbol alphabets, <= 3 over the full 43-symbol alphabet; thorough: "
     "<= 4 over the full alphabet, <= 5 over the three reduced ones), checks the theorems relating the modules in every state and prints one REPLAY line per "
-    "text; each line is replayed on the real library through 5 styles x 9 tags x up to 19 entry points (borrowed/owned Scalar, ScalarOwned, node constructors, "
+    "text; each line is replayed on the real library through 5 styles x 10 tags x up to 19 entry points (borrowed/owned Scalar, ScalarOwned, node constructors, "
     "YamlLoader::on_event, load_from_str) and compared with the allowed outcomes (violation) and the model's prediction (drift). Boundary and random longer "
     "texts are recorded from the real library and judged by Trace_Schema in TLC.",
     "Small-scope exhaustiveness (length <= 4/5) plus sampled longer texts. Float VALUES are compared with Rust's own parse of the decimal text the "
@@ -146,7 +146,7 @@ def _judge(ck, trace, name):
 def run(ck):
     ck.rule = ("texts = every string <= N over alphabets of core-schema characters (TLC-enumerated; per tier: %s) + seeded boundary families (powers of two +-3 in "
                "decimal/0x/0o with sign and prefix variants, 15..42-digit strings, all letter-case variants of null/true/false/inf/nan/infinity with sign and dot "
-               "prefixes, random texts of length 5..13 over the 43-symbol alphabet, random concatenations of literal fragments); each text x 5 styles x 9 tags "
+               "prefixes, random texts of length 5..13 over the 43-symbol alphabet, random concatenations of literal fragments); each text x 5 styles x 10 tags "
                "(7 tag classes) x up to 19 entry points; distinct_nontrivial = distinct texts that are core-schema literals (RefType # str) among the enumerated ones "
                "+ distinct boundary texts judged" % json.dumps(PLAN))
     ck.assumptions = [
